@@ -1101,9 +1101,17 @@ int cmd_gen(Args const& a)
 
 } // namespace
 
+#ifdef VERIF_WRAP_CLOCK
+extern "C" int64_t verif_clock_offset_s;
+#endif
+
 int main(int argc, char** argv)
 {
 	signal(SIGPIPE, SIG_IGN);
+#ifdef VERIF_WRAP_CLOCK
+	// C01: the wall clock this process sees is shifted by a seeded offset
+	if (char const* off = std::getenv("VERIF_CLOCK_OFFSET")) verif_clock_offset_s = std::strtoll(off, nullptr, 10);
+#endif
 	if (argc < 2)
 	{
 		std::fprintf(stderr, "usage: dst check|worker|run1|replay|gen ...\n");
